@@ -128,6 +128,7 @@ def model_tms():
                                                                      [('q0', 'a', 'q1', 'x', 'R'), ('q1', 'b', 'q0', 'b', 'L'), ('q1', '_', 'qa', '_', 'R'), ('q0', 'x', 'q0', 'x', 'R')], 'q0', 'qa', 'qr', '_'),
         'blank □, the initial state loops': _tm({'s', 'acc', 'rej'}, {'0'}, {'0', '□'}, [('s', '0', 's', '0', 'R'), ('s', '□', 'acc', '□', 'L')], 's', 'acc', 'rej', '□'),
         'no transitions': _tm({'s', 'acc', 'rej'}, {'a'}, {'a', '_'}, [], 's', 'acc', 'rej', '_'),
+        'empty input alphabet, transitions on tape symbols only': _tm({'s', 'acc', 'rej'}, set(), {'x', '_'}, [('s', '_', 's', 'x', 'R'), ('s', 'x', 'acc', 'x', 'L')], 's', 'acc', 'rej', '_'),
         'states named like the keywords of the other kinds': _tm({'epsilon', 'stack_symbols', 'A', 'R'}, {'a'}, {'a', '_'}, [('epsilon', 'a', 'stack_symbols', 'a', 'R'), ('stack_symbols', 'a', 'stack_symbols', '_', 'L'), ('stack_symbols', '_', 'A', '_', 'R')], 'epsilon', 'A', 'R', '_'),
     }
 
@@ -487,6 +488,7 @@ def _product_text(final, redirect=None):
 _F_UNION = ['(e,n)', '(e,y)', '(o,y)']
 _F_INTER = ['(e,y)']
 _F_SYMDIFF = ['(e,n)', '(o,y)']
+_ENDS_A = 'initial p\nfinal q\ninput_symbols a b\np p a b\np q a'
 _MIN_REF = 'initial p\nfinal q r\np q a\nq r a\nr q a'          # a+ with two equivalent states
 _CHECKER_CASES = [
     # (checker, arguments, is the answer right?, what it is)
@@ -509,11 +511,27 @@ _CHECKER_CASES = [
     ('notebook_dfa.check_dfa_minimal', [_MIN_REF, _MIN_REF, 4], False, 'the original DFA, which has two equivalent states'),
     ('notebook_dfa.check_dfa_minimal', [_MIN_REF, 'initial A\nfinal A\nA B a\nB B a', 4], False, 'a two-state DFA of another language'),
     ('notebook_dfa.check_dfa_minimal', [_MIN_REF, 'initial A\nfinal B\nA B a\nB A a', 4], False, 'a two-state DFA of the odd powers of a'),
+    # the NFA of the words that end with a, and its subset automaton
+    ('notebook_nfa2dfa.check_nfa2dfa', [_ENDS_A, 'initial {p}\nfinal {p,q}\n{p} {p,q} a\n{p} {p} b\n{p,q} {p,q} a\n{p,q} {p} b'], True, 'the subset automaton'),
+    ('notebook_nfa2dfa.check_nfa2dfa', [_ENDS_A, 'initial {p}\nfinal {p}\n{p} {p,q} a\n{p} {p} b\n{p,q} {p,q} a\n{p,q} {p} b'], False, 'the subset automaton with the wrong accepting subset'),
+    ('notebook_nfa2dfa.check_nfa2dfa', [_ENDS_A, 'initial {p}\nfinal {p,q}\n{p} {p,q} a\n{p} {p} b\n{p,q} {p,q} a\n{p,q} {p,q} b'], False, 'the subset automaton with the b-edge of {p,q} redirected'),
+    ('notebook_nfa2dfa.check_nfa2dfa', [_ENDS_A, 'initial {p,q}\nfinal {p,q}\n{p} {p,q} a\n{p} {p} b\n{p,q} {p,q} a\n{p,q} {p} b'], False, 'the subset automaton started in {p,q}'),
+    ('notebook_nfa2dfa.check_nfa2dfa', [_ENDS_A, 'initial {p}\nfinal {p,q}\n{p} {p,q} a\n{p} {p} b\n{p,q} {p,q} a'], False, 'the subset automaton without the b-edge of {p,q}'),
+    # language given by its words up to a length (the empty word is written ε or _)
+    ('notebook.check_dfa_language_from_words', [_D1, 'ε b aa bb', 2, 0], True, 'the DFA of an even number of a, words up to length 2'),
+    ('notebook.check_dfa_language_from_words', [_D1, 'b aa bb', 2, 0], False, 'the same DFA against a list without the empty word'),
+    ('notebook.check_dfa_language_from_words', [_D1, '_ b aa bb ab', 2, 0], False, 'the same DFA against a list with ab'),
+    ('notebook.check_dfa_language_from_words', [_D2, 'b ab bb', 2, 0], True, 'the DFA of the words ending with b, words up to length 2'),
+    ('notebook.check_dfa_language_from_words', [_D2, 'b ab bb', 2, 1], False, 'the same DFA with at most one state allowed'),
+    ('notebook.check_dfa_language_from_words', [_D2, '', 2, 0], False, 'the same DFA against the empty list'),
+    ('notebook.check_dfa_accepts_rejects', [_D1, 'ε aa baab', 'a ab'], True, 'accepted and rejected words of the even-a DFA'),
+    ('notebook.check_dfa_accepts_rejects', [_D1, 'ε aa a', 'ab'], False, 'a rejected word in the accepted list'),
+    ('notebook.check_dfa_accepts_rejects', [_D1, 'aa', 'ab ε'], False, 'the empty word in the rejected list of a DFA that accepts it'),
 ]
 
 
 def check_dfa_checkers(ctx, rep, rule='R-FEEDBACK.K13'):
-    """the DFA exercise checkers (union, intersection, symmetric difference, complement, minimal DFA) evaluated whole -- parsers,
+    """the exercise checkers (union, intersection, symmetric difference, complement, minimal DFA, NFA to DFA, language from a word list, accept / reject lists) evaluated whole -- parsers,
     library construction, language comparison, feedback -- on model exercises: OK is printed for the right answer (C13) and is
     NOT printed for answers whose language differs from the reference within the bound, or which are not minimal (C12)."""
     n_ok = 0
@@ -554,5 +572,116 @@ def check_dfa_checkers(ctx, rep, rule='R-FEEDBACK.K13'):
             continue
         if not bad:
             rep.holds(rule, f, 'def ' + f.name, 'on {} evaluations (model exercise, {} answers, two iteration orders of sets) OK is printed for the right answer and for none of the wrong ones'.format(n, len(cases)))
+            n_ok += 1
+    return n_ok
+
+
+# ---- class invariants on model objects ------------------------------------------------------------------------------------------------------
+
+def _invariant_cases():
+    """(class, what, positional constructor arguments, valid?).  One object per invariant of the formal definition that violates exactly
+    that invariant, and valid objects whose states are named after sets and pairs (nothing is demanded of what a name looks like)."""
+    C = []
+    dd = {('p', 'a'): 'q', ('q', 'a'): 'q'}
+    C += [
+        ('DFA', 'a valid DFA', [{'p', 'q'}, {'a'}, dict(dd), 'p', {'q'}], True),
+        ('DFA', 'states named after sets and pairs, multi-character symbol names avoided', [{'{p,q}', '(p,q)'}, {'a'}, {('{p,q}', 'a'): '(p,q)', ('(p,q)', 'a'): '(p,q)'}, '{p,q}', {'(p,q)'}], True),
+        ('DFA', 'empty alphabet, no accepting state', [{'p'}, set(), {}, 'p', set()], True),
+        ('DFA', 'digits and punctuation as symbols', [{'p'}, {'0', '#'}, {('p', '0'): 'p', ('p', '#'): 'p'}, 'p', {'p'}], True),
+        ('DFA', 'the initial state is not a state', [{'p', 'q'}, {'a'}, dict(dd), 'x', {'q'}], False),
+        ('DFA', 'an accepting state is not a state', [{'p', 'q'}, {'a'}, dict(dd), 'p', {'q', 'x'}], False),
+        ('DFA', 'a transition leaves a non-state', [{'p', 'q'}, {'a'}, dict(dd, **{}) | {('x', 'a'): 'p'}, 'p', {'q'}], False),
+        ('DFA', 'a transition reads a symbol outside the alphabet', [{'p', 'q'}, {'a'}, dict(dd) | {('p', 'b'): 'p'}, 'p', {'q'}], False),
+        ('DFA', 'a transition enters a non-state', [{'p', 'q'}, {'a'}, {('p', 'a'): 'x', ('q', 'a'): 'q'}, 'p', {'q'}], False),
+        ('DFA', 'a transition reads the empty string, which is not a symbol of the alphabet', [{'p'}, {'a'}, {('p', 'a'): 'p', ('p', ''): 'p'}, 'p', {'p'}], False),
+        ('DFA', 'the transition function is not total', [{'p', 'q'}, {'a'}, {('p', 'a'): 'q'}, 'p', {'q'}], False),
+    ]
+    nd = {('p', 'a'): {'p', 'q'}, ('p', 'e'): {'q'}}
+    C += [
+        ('NFA', 'a valid NFA', [{'p', 'q'}, {'a'}, dict(nd), 'p', {'q'}, 'e'], True),
+        ('NFA', 'states named after sets and pairs, an empty target set', [{'{p,q}', '(p,q)'}, {'a'}, {('{p,q}', 'a'): {'(p,q)'}, ('(p,q)', 'a'): set()}, '{p,q}', set(), ''], True),
+        ('NFA', 'the initial state is not a state', [{'p', 'q'}, {'a'}, dict(nd), 'x', {'q'}, 'e'], False),
+        ('NFA', 'an accepting state is not a state', [{'p', 'q'}, {'a'}, dict(nd), 'p', {'x'}, 'e'], False),
+        ('NFA', 'epsilon is an input symbol', [{'p', 'q'}, {'a', 'e'}, dict(nd), 'p', {'q'}, 'e'], False),
+        ('NFA', 'a transition leaves a non-state', [{'p', 'q'}, {'a'}, dict(nd) | {('x', 'a'): {'p'}}, 'p', {'q'}, 'e'], False),
+        ('NFA', 'a transition reads a symbol that is neither in the alphabet nor epsilon', [{'p', 'q'}, {'a'}, dict(nd) | {('p', 'b'): {'p'}}, 'p', {'q'}, 'e'], False),
+        ('NFA', 'a transition enters a non-state', [{'p', 'q'}, {'a'}, {('p', 'a'): {'p', 'x'}}, 'p', {'q'}, 'e'], False),
+    ]
+    pd = {('p', 'a', '_'): {('p', 'x')}, ('p', '_', 'x'): {('q', '_')}}
+    C += [
+        ('PDA', 'a valid PDA', [{'p', 'q'}, {'a'}, {'x'}, dict(pd), 'p', {'q'}, '_'], True),
+        ('PDA', 'the initial state is not a state', [{'p', 'q'}, {'a'}, {'x'}, dict(pd), 'z', {'q'}, '_'], False),
+        ('PDA', 'an accepting state is not a state', [{'p', 'q'}, {'a'}, {'x'}, dict(pd), 'p', {'z'}, '_'], False),
+        ('PDA', 'epsilon is an input symbol', [{'p', 'q'}, {'a', '_'}, {'x'}, dict(pd), 'p', {'q'}, '_'], False),
+        ('PDA', 'epsilon is a stack symbol', [{'p', 'q'}, {'a'}, {'x', '_'}, dict(pd), 'p', {'q'}, '_'], False),
+        ('PDA', 'a transition leaves a non-state', [{'p', 'q'}, {'a'}, {'x'}, dict(pd) | {('z', 'a', '_'): {('p', '_')}}, 'p', {'q'}, '_'], False),
+        ('PDA', 'a transition reads a symbol outside the input alphabet', [{'p', 'q'}, {'a'}, {'x'}, dict(pd) | {('p', 'b', '_'): {('p', '_')}}, 'p', {'q'}, '_'], False),
+        ('PDA', 'a transition pops a symbol outside the stack alphabet', [{'p', 'q'}, {'a'}, {'x'}, dict(pd) | {('p', 'a', 'y'): {('p', '_')}}, 'p', {'q'}, '_'], False),
+        ('PDA', 'a transition enters a non-state', [{'p', 'q'}, {'a'}, {'x'}, dict(pd) | {('q', 'a', '_'): {('z', '_')}}, 'p', {'q'}, '_'], False),
+        ('PDA', 'a transition pushes a symbol outside the stack alphabet', [{'p', 'q'}, {'a'}, {'x'}, dict(pd) | {('q', 'a', '_'): {('q', 'y')}}, 'p', {'q'}, '_'], False),
+    ]
+    td = {('s', 'a'): ('s', 'x', 'R'), ('s', '_'): ('A', '_', 'L')}
+    base = [{'s', 'A', 'R'}, {'a'}, {'a', 'x', '_'}]
+    C += [
+        ('TM', 'a valid TM', base + [dict(td), 's', 'A', 'R', '_'], True),
+        ('TM', 'the initial state is not a state', base + [dict(td), 'z', 'A', 'R', '_'], False),
+        ('TM', 'the accepting state is not a state', base + [dict(td), 's', 'z', 'R', '_'], False),
+        ('TM', 'the rejecting state is not a state', base + [dict(td), 's', 'A', 'z', '_'], False),
+        ('TM', 'the accepting and the rejecting state coincide', base + [dict(td), 's', 'A', 'A', '_'], False),
+        ('TM', 'the blank is an input symbol', [{'s', 'A', 'R'}, {'a', '_'}, {'a', 'x', '_'}, dict(td), 's', 'A', 'R', '_'], False),
+        ('TM', 'the blank is not a tape symbol', [{'s', 'A', 'R'}, {'a'}, {'a', 'x'}, {('s', 'a'): ('s', 'x', 'R')}, 's', 'A', 'R', '_'], False),
+        ('TM', 'an input symbol is not a tape symbol', [{'s', 'A', 'R'}, {'a', 'b'}, {'a', 'x', '_'}, dict(td), 's', 'A', 'R', '_'], False),
+        ('TM', 'a transition leaves a non-state', base + [dict(td) | {('z', 'a'): ('s', 'a', 'R')}, 's', 'A', 'R', '_'], False),
+        ('TM', 'a transition reads a symbol outside the tape alphabet', base + [dict(td) | {('s', 'y'): ('s', 'a', 'R')}, 's', 'A', 'R', '_'], False),
+        ('TM', 'a transition enters a non-state', base + [dict(td) | {('s', 'x'): ('z', 'a', 'R')}, 's', 'A', 'R', '_'], False),
+        ('TM', 'a transition writes a symbol outside the tape alphabet', base + [dict(td) | {('s', 'x'): ('s', 'y', 'R')}, 's', 'A', 'R', '_'], False),
+        ('TM', 'a transition moves in a direction other than L and R', base + [dict(td) | {('s', 'x'): ('s', 'x', 'S')}, 's', 'A', 'R', '_'], False),
+    ]
+    return C
+
+
+_CLASS_HOME = {'DFA': 'dfa.DFA', 'NFA': 'nfa.NFA', 'PDA': 'pda.PDA', 'TM': 'tm.TM'}
+
+
+def check_class_invariants(ctx, rep, rule=RULE + '.M40'):
+    """the constructors of DFA, NFA, PDA and TM on model arguments: an object that violates exactly one invariant of the formal
+    definition is refused with an AssertionError, and valid objects -- among them automata whose states are named after sets and
+    pairs of states, as the library's own constructions name them -- are accepted."""
+    import copy
+    n_ok = 0
+    for cname, spec in _CLASS_HOME.items():
+        cls = ctx.prog.cls(spec)
+        f = ctx.prog.find_method(cls, '_check_validity') or ctx.prog.find_method(cls, '__init__')
+        cases = 0
+        bad = False
+        try:
+            for k, what, args, valid in _invariant_cases():
+                if k != cname:
+                    continue
+                for order in ('asc', 'desc'):
+                    it = _interp(ctx, order)
+                    try:
+                        it.instantiate(cls, copy.deepcopy(args), {})
+                        raised = None
+                    except Raised as ex:
+                        if ex.name != 'AssertionError' and not getattr(ex, 'certain', False):
+                            raise Unsupported('the evaluator met a {} it cannot attribute to the code'.format(ex.name))
+                        raised = ex
+                    cases += 1
+                    if valid and raised is not None:
+                        rep.violates(rule, f, 'class ' + cname, 'the constructor refuses a valid {} ({}): {}'.format(cname, what, raised.name))
+                        bad = True
+                        break
+                    if not valid and raised is None:
+                        rep.violates(rule, f, 'class ' + cname, 'the constructor accepts a {} that violates an invariant of the definition: {}'.format(cname, what))
+                        bad = True
+                        break
+                if bad:
+                    break
+        except (Unsupported, RecursionError) as e:
+            rep.undecided(rule, f, 'class ' + cname, 'outside the evaluator: {}'.format(e))
+            continue
+        if not bad:
+            rep.holds(rule, f, 'class ' + cname, 'on {} constructions (two iteration orders of sets) every object violating exactly one invariant of the definition is refused and the valid objects, among them automata with states named after sets and pairs, are accepted'.format(cases))
             n_ok += 1
     return n_ok
